@@ -403,6 +403,20 @@ func (g *goBuilder) value(v *Val, t types.Type) (string, error) {
 			// keep the test readable
 		}
 		return fmt.Sprintf("%s{%s}", g.typeStr(t), strings.Join(elems, ", ")), nil
+	case *types.Array:
+		if v.K != KArr || u.Len() > 4096 {
+			break
+		}
+		var elems []string
+		for i := int64(0); i < u.Len(); i++ {
+			ev := g.f.arrayIndex(v, num(i))
+			s, err := g.value(ev, u.Elem())
+			if err != nil {
+				return "", err
+			}
+			elems = append(elems, s)
+		}
+		return fmt.Sprintf("%s{%s}", g.typeStr(t), strings.Join(elems, ", ")), nil
 	case *types.Pointer:
 		st, ok := u.Elem().Underlying().(*types.Struct)
 		if !ok || v.K != KPtr || v.P != nil || len(v.Fs) != 0 {
